@@ -16,8 +16,9 @@ BAD_ALTERS = ["method", "method2", "otherkey", "ident", "nonce+1", "nonce-1", "n
 
 
 class PoolGen:
-    def __init__(self, rnd, cfg=None, weights=None):
+    def __init__(self, rnd, cfg=None, weights=None, race=False):
         self.r = rnd
+        self.race = race   # real-clock run: no sleeps, agents never hang or dawdle
         self.ops = []
         self.now = 0
         self.sec_ctr = {}
@@ -30,7 +31,7 @@ class PoolGen:
         self.linked = {}
         self.w = dict(sleep=10, update=30, peer=12, reconnect=5, close=3, reopen=3, addnode=4, withdraw=3,
                       deposit=2, forged=8, mode=3, credit=2, stale=2, account=1, legacy=2, client=1, host=1, stats=1,
-                      settlemode=1)
+                      settlemode=1, burst=0, sburst=0, wburst=0)
         if weights:
             self.w.update(weights)
         self.cfg = cfg or {}
@@ -74,6 +75,8 @@ class PoolGen:
                 return None
             k = free[0]
         host = "10.1.%d.%d" % (r.randint(0, 3), r.randint(1, 250))
+        if self.race:
+            mode = r.choice(["ack", "ack", "err"])
         self.emit({"op": "Open", "conn": k, "mode": mode or r.choice(["ack", "ack", "ack", "slow", "err", "hang"]),
                    "addr": host + ":%d" % r.randint(1024, 65000), "host": host})
         self.open[k] = True
@@ -154,6 +157,8 @@ class PoolGen:
         self.emit(self.signed({"op": "Withdraw", "conn": k}, acct, alter))
 
     def sleep(self, d=None):
+        if self.race:
+            return
         d = d if d is not None else self.r.choice([1, 1, 5, 30, 59, 60, 60, 61, 90, 119, 120, 121, 300])
         self.emit({"op": "Sleep", "d": d})
         self.now += d
@@ -202,6 +207,70 @@ class PoolGen:
         self.last_nonce[node] = max(last, op["nonce"])
         self.emit(op)
 
+    def sburst(self):
+        """store operations issued concurrently (each is atomic by contract)"""
+        r = self.r
+        reqs = []
+        for _ in range(r.choice([2, 3, 4, 5])):
+            x = r.random()
+            if x < 0.3:
+                reqs.append({"op": "AddAccountBalance", "acct": r.choice(ACCTS), "amt": r.choice([1, 3, 7, -2, 50])})
+            elif x < 0.6:
+                reqs.append({"op": "AddNodeBalance", "id": r.choice(NODES), "amt": r.choice([1, 3, 7, -2, 50])})
+            elif x < 0.75:
+                reqs.append({"op": "AddAccountNode", "acct": r.choice(ACCTS), "id": r.choice(NODES)})
+            elif x < 0.9:
+                v = self.now * 1000 + r.choice([5, 6, 7])
+                reqs.append({"op": "Nonce", "ident": r.choice(["x9", "h1"]), "v": v, "wallet": False})
+                if r.random() < 0.5:
+                    reqs.append(dict(reqs[-1]))
+            else:
+                n = r.choice(NODES)
+                reqs.append({"op": "UpdateNodePeers", "id": n, "peers": r.sample([m for m in NODES if m != n], r.choice([0, 1, 2])), "block": 3})
+        self.emit({"op": "Burst", "reqs": reqs})
+
+    def burst(self, wallets=False):
+        """2-4 requests issued concurrently, one per identity (or racing copies of one request)"""
+        r = self.r
+        # agents must answer at once: bursts are validated against a frozen clock
+        for k in sorted(self.open):
+            self.emit({"op": "Mode", "conn": k, "mode": "ack"})
+        saved, self.ops = self.ops, []
+        n = r.choice([2, 2, 3, 3, 4]) if not self.race else r.choice([3, 4, 5, 6, 7])
+        if wallets or (not self.race and r.random() < 0.25):
+            # wallets: linking and withdrawals (a withdrawal racing a keep-alive that credits the same
+            # wallet may see part of the keep-alive: the pool's keep-alive is not one transaction)
+            for ident in [r.choice(ACCTS) for _ in range(n)]:
+                if r.random() < 0.4:
+                    self.addnode(ident, r.choice(NODES))
+                else:
+                    self.withdraw(ident)
+        else:
+            idents = r.sample(NODES + ACCTS, n)
+            for ident in idents:
+                if ident in ACCTS:
+                    self.addnode(ident, r.choice(NODES))
+                else:
+                    x = r.random()
+                    if x < 0.6:
+                        self.update(ident)
+                    elif x < 0.8:
+                        self.peer(ident)
+                    else:
+                        self.connect(ident)
+        reqs, self.ops = self.ops, saved
+        # connections opened on the way are opened before the burst
+        for op in [o for o in reqs if o["op"] == "Open"]:
+            self.emit(op)
+        reqs = [o for o in reqs if o["op"] != "Open"]
+        if r.random() < 0.3:
+            # racing copies of one signed request (same nonce)
+            dup = dict(r.choice(reqs))
+            reqs.append(dup)
+            if r.random() < 0.3:
+                reqs.append(dict(dup))
+        self.emit({"op": "Burst", "reqs": reqs})
+
     def step(self):
         r = self.r
         kinds = list(self.w)
@@ -239,7 +308,8 @@ class PoolGen:
             self.stale()
         elif kind == "mode":
             if self.open:
-                self.emit({"op": "Mode", "conn": r.choice(sorted(self.open)), "mode": r.choice(["ack", "ack", "slow", "err", "hang"])})
+                self.emit({"op": "Mode", "conn": r.choice(sorted(self.open)),
+                           "mode": r.choice(["ack", "ack", "err"] if self.race else ["ack", "ack", "slow", "err", "hang"])})
         elif kind == "credit":
             if r.random() < 0.5:
                 self.emit({"op": "AddAccountBalance", "acct": r.choice(ACCTS), "amt": r.choice([5, 50, 500, -20])})
@@ -268,6 +338,12 @@ class PoolGen:
             self.emit({"op": "Stats"})
         elif kind == "settlemode":
             self.emit({"op": "SettleMode", "fail": r.random() < 0.5})
+        elif kind == "burst":
+            self.burst()
+        elif kind == "sburst":
+            self.sburst()
+        elif kind == "wburst":
+            self.burst(wallets=True)
 
     def session(self, nops):
         r = self.r
@@ -282,15 +358,50 @@ class PoolGen:
             self.addnode(r.choice(ACCTS), r.choice(CLIENTS))
         if r.random() < 0.5:
             self.emit({"op": "Deposit", "acct": r.choice(ACCTS), "amt": r.choice([10, 100, 1000])})
+        if self.race:
+            self.startup_burst()
         for _ in range(nops):
             self.step()
 
+    def startup_burst(self):
+        """every connected node sends its first keep-alive at the same time, reporting all the others:
+        first-ever credits of the hosts race with the hosts' own keep-alives"""
+        saved, self.ops = self.ops, []
+        for n in sorted(self.connected):
+            k = self.conn_for(n)
+            peers = [m for m in sorted(self.connected) if m != n]
+            self.emit(self.signed({"op": "Update", "conn": k, "peers": peers, "block": 1}, n))
+        reqs, self.ops = self.ops, saved
+        for op in [o for o in reqs if o["op"] == "Open"]:
+            self.emit(op)
+        reqs = [o for o in reqs if o["op"] != "Open"]
+        if len(reqs) >= 2:
+            self.emit({"op": "Burst", "reqs": reqs})
+            self.emit({"op": "Burst", "reqs": [dict(q, nonce=q["nonce"] + 1) for q in reqs]})
 
-def pool_script(seed, ntraces, nops, driver, workdir, cfg=None, weights=None):
+
+def nonce_race_script(seed, nbursts, driver, workdir):
+    """C05: racing copies of one nonce, real parallelism"""
+    rnd = random.Random(seed)
+    ops = [{"op": "Reset", "pool": True, "nodes": ["x9"], "accts": [], "unit": "1", "price": 1, "interval": 60, "hasmin": False, "minbal": 0,
+            "maxhosts": 0, "fee": 0, "haswmin": False, "wmin": 0}]
+    v = 0
+    for _ in range(nbursts):
+        v += rnd.choice([1, 1, 2])
+        k = rnd.choice([2, 4, 8, 8])
+        reqs = [{"op": "Nonce", "ident": "x9", "v": v, "wallet": False} for _ in range(k)]
+        if rnd.random() < 0.3:
+            reqs += [{"op": "Nonce", "ident": "x9", "v": v + 1, "wallet": False} for _ in range(2)]
+            v += 1
+        ops.append({"op": "Burst", "reqs": reqs})
+    return {"driver": driver, "dir": "%s/badger-nrace-%d" % (workdir, seed), "seed": seed, "ops": ops}
+
+
+def pool_script(seed, ntraces, nops, driver, workdir, cfg=None, weights=None, race=False):
     rnd = random.Random(seed)
     ops = []
     for _ in range(ntraces):
-        g = PoolGen(rnd, cfg=cfg, weights=weights)
+        g = PoolGen(rnd, cfg=cfg, weights=weights, race=race)
         g.session(nops)
         ops += g.ops
     return {"driver": driver, "dir": "%s/badger-pool-%d" % (workdir, seed), "seed": seed, "ops": ops}
